@@ -83,13 +83,22 @@ FOREIGN = ["FX", "FY", "FZ", "FV", "FM", "FS", "FC"]
 IDMAP = {"zze": "\u00e9", "Zze": "\u00c9", "zzo": "\u03c9", "Zzo": "\u03a9", "_nihon": "\u65e5\u672c",
          "Zzea": "\u00c9a", "zzea": "\u00e9a", "Zzecoute": "\u00c9coute", "zzecoute": "\u00e9coute"}
 
+GEN_PREDECLARED = ["Byte", "Rune", "String", "Int", "Bool", "Uint8", "Int64", "Uintptr", "Float64", "Complex128", "Error", "Any"]
+
 FOREIGN_SRC = """package %s
+
+import "%s/internal/impl"
 
 type T struct{ N int }
 type I interface{ Do(T) error }
 type G[T any] struct{ V T }
 type E int
 type A = T
+
+// aliases whose targets cannot be named from another package tree: a type of an internal package, an unexported type
+type Client = impl.Client
+type token struct{ v int }
+type Token = token
 type C interface{ ~int | ~string }
 type Ordered interface{ ~int | ~int64 | ~float64 | ~string }
 type GI[T any] interface {
@@ -124,6 +133,8 @@ GOMOD_SPELLINGS = {
     "comment": "module %s // the module under test\n",
     "block": "module (\n\t%s\n)\n",
 }
+
+ALIAS_NAMES = ("A", "LA", "Client", "Token")
 
 PLACEMENTS = ["samepkg", "samepkg_test", "ext_test", "subpkg", "subpkg_samename"]
 
@@ -342,9 +353,8 @@ def render_source(prog, pkgname, extra_terms=(), all_decls=False):
         if n in done:
             continue
         done.add(n)
-        if n not in LOCAL_TYPES:
-            raise MachineryError("program %s mentions unknown local type %s" % (prog["pid"], n))
-        txt = LOCAL_TYPES[n]
+        # every other local type name is a plain struct (the concretisation is total)
+        txt = LOCAL_TYPES.get(n) or "type %s struct{ X int }" % conc_ident(n)
         if "{FX}" in txt:
             r.used.add("FX")
             txt = txt.replace("{FX}", SRC_ALIAS["FX"])
@@ -449,7 +459,7 @@ def load_space(ctx, tier, programs_cfg=None, need_cfgs=True):
                 seen.add(k)
                 sp.cfgs.append(x)
         sp.tlc["cfg"] = {"generated": rc.generated, "distinct": rc.distinct, "wall": round(rc.wall, 1)}
-        if len(sp.cfgs) < 1000:
+        if len(sp.cfgs) < 10000:
             raise MachineryError("configuration space export too small: %d" % len(sp.cfgs))
     return sp
 
@@ -522,6 +532,8 @@ def leaf_class(prog):
             def f(x):
                 if x["k"] in ("named", "inst"):
                     pk.add("local" if x["p"] == "SRC" else "std" if x["p"].startswith("S") else "foreign")
+                    if x["n"] in ALIAS_NAMES:
+                        pk.add("alias-" + x["n"])        # *types.Alias is a node kind of its own
                     if x["k"] == "inst":
                         pk.add("inst")
             walk_terms(t, f)
@@ -587,14 +599,14 @@ def replay_pairs(ctx, sp):
     return [(case["pid"], c)]
 
 
-CFG_DIMS = ["tmplopts", "fmt", "place", "gomod", "boilerplate", "buildtags"]
+CFG_DIMS = ["tmplopts", "fmt", "place", "gomod", "boilerplate", "buildtags", "ovr"]
 
 
 def cfg_dims(c):
     cfg = c["cfg"]
     to = (cfg["tmpl"], cfg["unroll"], cfg["skipensure"], cfg["stub"], cfg["resets"])
     return {"tmplopts": to, "fmt": cfg["fmt"], "place": cfg["place"], "gomod": cfg["gomod"],
-            "boilerplate": cfg["boilerplate"], "buildtags": cfg["buildtags"]}
+            "boilerplate": cfg["boilerplate"], "buildtags": cfg["buildtags"], "ovr": cfg["ovr"]}
 
 
 def assign_configs(ctx, sp, pids, slots_for, prefer=None):
@@ -656,15 +668,14 @@ def placement_paths(place, casedir, srcname):
     raise MachineryError("unknown placement " + place)
 
 
-def template_data(cfg, world):
-    td = {}
-    if cfg["tmpl"] == "testify":
-        if cfg["unroll"] != "unset":
-            td["unroll-variadic"] = cfg["unroll"] == "true"
-    else:
-        for k, key in (("skipensure", "skip-ensure"), ("stub", "stub-impl"), ("resets", "with-resets")):
-            if cfg[k]:
-                td[key] = True
+def level_data(d):
+    """abstract per-level option map of CodegenCfg.tla (unset / true / false) -> template-data entries"""
+    return {k: v == "true" for k, v in d.items() if v != "unset"}
+
+
+def template_data(cfg, cexpect, world):
+    """package-level template-data (options as CodegenCfg.tla PkgData says, plus the file-level keys)"""
+    td = level_data(cexpect["pkgdata"])
     if cfg["boilerplate"]:
         td["boilerplate-file"] = str(world / "boilerplate.txt")
     if cfg["buildtags"]:
@@ -681,7 +692,7 @@ class Case:
         return {"template": self.cfg["tmpl"], "formatter": self.cfg["fmt"], "placement": self.cfg["place"],
                 "inpkg": bool(self.cexpect["inpkg"]), "gomod": self.cfg["gomod"], "family": p["fam"],
                 "feature": p["feat"], "idclass": p["idclass"], "ident": p["ident"], "pos": p["pos"], "srcname": p["srcname"],
-                "unroll": self.cfg["unroll"], "skipensure": self.cfg["skipensure"], "stub": self.cfg["stub"]}
+                "unroll": self.cfg["unroll"], "skipensure": self.cfg["skipensure"], "stub": self.cfg["stub"], "ovr": self.cfg["ovr"]}
 
     def brief(self):
         return {"cid": self.cid, "pid": self.pid, "cfg": self.cfg, "dir": self.dir, "out": self.outdir + "/" + self.outfile}
@@ -691,7 +702,9 @@ def helper_files():
     files = {}
     for p in FOREIGN:
         path, name = PKGS[p]
-        files[path[len(MOD) + 1:] + "/lib.go"] = FOREIGN_SRC % name
+        rel = path[len(MOD) + 1:]
+        files[rel + "/lib.go"] = (FOREIGN_SRC % (name, path)) + "\n" + "\n".join("type %s struct{ N int }" % x for x in GEN_PREDECLARED) + "\n"
+        files[rel + "/internal/impl/impl.go"] = "// only importable from within %s\npackage impl\n\ntype Client struct{ N int }\n" % path
     files["boilerplate.txt"] = "// Copyright (c) the verification harness.\n// SPDX-License-Identifier: none\n"
     return files
 
@@ -719,7 +732,10 @@ def build_worlds(ctx, sp, pairs, all_decls=None):
         cs = Case()
         cs.cid = "k%04d" % n
         cs.pid, cs.prog, cs.cfg, cs.cexpect = pid, sp.progs[pid]["prog"], cfg, c["expect"]
-        cs.pred = sp.pred(pid, cfg["tmpl"], c["expect"]["inpkg"], cfg["tmpl"] == "matryer" and not cfg["skipensure"])
+        multi = len(cs.prog.get("targets") or []) > 1
+        # does some interface of the file render its ensure line (effective options per interface from CodegenCfg.tla)?
+        ens = cfg["tmpl"] == "matryer" and (not c["expect"]["predkey"]["skipensure"] or (multi and not c["expect"]["predkey_rest"]["skipensure"]))
+        cs.pred = sp.pred(pid, cfg["tmpl"], c["expect"]["inpkg"], ens)
         cs.world = d
         cs.dir = "c/" + cs.cid
         cs.pkgpath = MOD + "/" + cs.dir
@@ -741,12 +757,16 @@ def build_worlds(ctx, sp, pairs, all_decls=None):
 def mockery_entry(cs, template=None, extra=None, names=None):
     conf = {"template": template or cs.cfg["tmpl"], "formatter": cs.cfg["fmt"],
             "dir": str(cs.world / cs.outdir), "filename": cs.outfile, "pkgname": cs.outpkg,
-            "template-data": template_data(cs.cfg, cs.world) if template is None else {}}
+            "template-data": template_data(cs.cfg, cs.cexpect, cs.world) if template is None else {}}
     if extra:
         conf.update(extra)
-    if names is None and len(cs.prog.get("targets") or []) > 1:
-        names = cs.prog["targets"]          # several interfaces of the package into this one file
-    return {"config": conf, "interfaces": {conc_ident(n): {} for n in names} if names else {cs.target: {}}}
+    if names is None:
+        names = cs.prog.get("targets") or [cs.prog["target"]]   # several interfaces of the package into this one file
+    ifaces = {}
+    for i, n in enumerate(names):
+        own = level_data(cs.cexpect["firstdata" if i == 0 else "restdata"]) if template is None else {}
+        ifaces[conc_ident(n)] = {"config": {"template-data": own}} if own else {}
+    return {"config": conf, "interfaces": ifaces}
 
 
 def run_mockery_chunk(ctx, world, entries, tag, max_fail=25, traces=None):
@@ -1112,10 +1132,12 @@ def validate_events(ctx, module, cfg, events, timeout=900):
 # ------------------------------------------------------------------------------------------ failure signatures
 def predicted_tags(cs):
     """issue tags the code-shaped model (Codegen.tla) predicts for this case's option set"""
-    key = cs.cexpect["predkey"]
+    keys = [cs.cexpect["predkey"]]
+    if len(cs.prog.get("targets") or []) > 1:
+        keys.append(cs.cexpect["predkey_rest"])       # interfaces of one file may see different options
     tags = set(cs.pred["modelissues"])
     for e in cs.pred["issues"]:
-        if e["opts"] == key:
+        if any(e["opts"]["unroll"] == k["unroll"] and e["opts"]["stub"] == k["stub"] for k in keys):
             tags |= set(e["tags"])
     return tags
 
